@@ -14,6 +14,7 @@ Secondary lazy collection arguments: the same three measurements for `<list>.op(
 join (second collection), zip, zipLongest, concat, +, insertMany, replaceMany, defaultIfEmpty, selectMany (lazy selector
 result): the instrumented source feeds the SECOND argument, the receiver is a constant (possibly empty / an iterator)."""
 import itertools
+import zlib
 import json
 import signal
 import time
@@ -468,6 +469,60 @@ def sec_ref(sec, s, count):
 _STATE = {}
 
 
+# The consumption bound is a property of the operators, not of one engine configuration: every case runs on one member of
+# an engine FAMILY - the base engine, or an engine derived from it (`engine.copy(delta)` kept alive / `engine(text,
+# options=delta)`) whose options differ in what the iterator plumbing looks at: no limit and no memory quota (the limiter
+# and the quota checks are wrappers around every lazy stage), a very large limit, unconverted input (the source is not
+# wrapped by convert_input_data), iterable dictionaries, tuples / sets kept in the output.  Which member: from the text.
+ENGINE_DELTAS = [None, None, None,
+                 {'yaql.limitIterators': -1, 'yaql.memoryQuota': -1},
+                 {'yaql.convertInputData': False},
+                 {'yaql.iterableDicts': True},
+                 {'yaql.convertTuplesToLists': False, 'yaql.convertSetsToLists': False},
+                 {'yaql.limitIterators': 1000000, 'yaql.memoryQuota': -1},
+                 {'yaql.limitIterators': -1, 'yaql.convertInputData': False, 'yaql.iterableDicts': True}]
+MEMBER_HIST = {}
+
+
+def pick_member(text, case):
+    """-> (index into ENGINE_DELTAS, 'base' | 'copy' | 'percall')"""
+    h = zlib.crc32(text.encode('utf8', 'replace'))
+    i = h % len(ENGINE_DELTAS)
+    d = ENGINE_DELTAS[i]
+    if d is not None and d.get('yaql.convertInputData') is False and case['dict']:
+        i, d = 0, None          # (unconverted dictionaries are unhashable: another domain of values)
+    how = 'base' if d is None else ('copy' if (h >> 8) % 2 else 'percall')
+    return i, how
+
+
+def member_statement(eng, text, i, how):
+    """the statement of `text` asked from the member; the base engine has seen the text first half of the time"""
+    if how == 'base':
+        return eng(text), eng
+    d = ENGINE_DELTAS[i]
+    if zlib.crc32(text.encode('utf8', 'replace')) >> 9 & 1:
+        try:
+            eng(text)
+        except Exception:       # noqa
+            pass
+    if how == 'copy':
+        copies = _STATE.setdefault('copies', {})
+        if i not in copies:
+            copies[i] = eng.copy(d)
+        return copies[i](text), copies[i]
+    st = eng(text, options=d)
+    return st, st.engine
+
+
+def plain(v):
+    """the result with tuples / sets as lists (members whose finaliser keeps them)"""
+    if isinstance(v, (tuple, list, set, frozenset)):
+        return [plain(x) for x in v]
+    if isinstance(v, dict):
+        return {k: plain(x) for k, x in v.items()}
+    return v
+
+
 def setup_engine():
     if 'eng' not in _STATE:
         import yaql
@@ -512,11 +567,14 @@ def run_real_once(case, timeout=4):
     srcobj = Source(case['base'], case['delta'], case['dict'], n=case.get('len'))
     counter[0] = 0
     try:
-        st = eng(text)
+        mi, how = pick_member(text, case)
+        MEMBER_HIST[(mi, how)] = MEMBER_HIST.get((mi, how), 0) + 1
+        st, eng = member_statement(eng, text, mi, how)
         child = ctx.create_child_context()
         if case.get('sec'):
             from yaql.language import utils as yutils
-            child['src'] = yutils.convert_input_data(srcobj)      # what evaluate(data=..) does for `$`
+            # what evaluate(data=..) does for `$`
+            child['src'] = yutils.convert_input_data(srcobj) if eng.options.get('yaql.convertInputData', True) else srcobj
         signal.signal(signal.SIGALRM, c13._alarm)
         signal.setitimer(signal.ITIMER_REAL, timeout)
         try:
@@ -530,7 +588,7 @@ def run_real_once(case, timeout=4):
                 r = st.evaluate(data=place_data(place, srcobj), context=child)
         finally:
             signal.setitimer(signal.ITIMER_REAL, 0)
-        return dict(kind='ok', value=r, pulls=srcobj.pulls, apps=counter[0], text=text)
+        return dict(kind='ok', value=plain(r), pulls=srcobj.pulls, apps=counter[0], text=text)
     except c13.Timeout:
         return dict(kind='timeout', pulls=srcobj.pulls, apps=counter[0], text=text)
     except Exception as e:
@@ -813,6 +871,8 @@ def run(env, res):
             res.fail(g[0], key[:60], g[1], case_to_json(small))
             if len(res.failures) >= 8 or sum('watchdog' in x.what for x in res.failures) >= 2:
                 break
+    hist['engine_family_members'] = {'%s:%s' % (how, json.dumps(ENGINE_DELTAS[i], sort_keys=True) if ENGINE_DELTAS[i] else 'base options'): n
+                                     for (i, how), n in sorted(MEMBER_HIST.items())}
     res.extra['histogram'] = hist
     res.extra['correspondence_wall_s'] = round(time.time() - t0, 1)
     return res
